@@ -61,6 +61,12 @@ theorem gen_no_crash (a : Act) (l : Bool) (r : Rel) (hi : a = .acquire → r ≠
     ∃ st rep, Gen.LockFsm.table a l r = .ok st rep := by
   cases a <;> cases l <;> cases r <;> simp_all [Gen.LockFsm.table]
 
+/-- OBLIGATION on the generated queue facts: the worker's request queue is constructed unbounded (and used as
+`append`/`popleft` FIFO — the translator refuses anything else).  The model has no overflow behaviour: every request
+delivered to an object is handled, in order, and answered (`lock_requests_total`).  A bounded queue would have to
+bring its bound and what happens to the displaced request into the model first. -/
+theorem gen_worker_queue_unbounded : Gen.LockFsm.workerQueueBound = none := by decide
+
 /-- the generated dispatch guard is `self._locking_token is None or self._locking_token == request.lock_token` -/
 theorem guard_eq_spec (owner req : Option Token) :
     guardStep owner req = if dispatchGuard owner req then .exec else .refused :=
